@@ -151,6 +151,27 @@ def gen(c):
             put({"op": "is_on_curve", "P": i2b(P1[0]) + i2b((P1[1] + 1) % p)}, {"op": "is_on_curve", "expectbool": False})
             put({"op": "point_equ", "P": xy(P1), "Q": xy(P1), "lam": H(rng.randrange(2, p))}, {"op": "point_equ", "expectbool": True})
             put({"op": "point_equ", "P": xy(P1), "Q": xy(neg(P1)), "lam": H(rng.randrange(2, p))}, {"op": "point_equ", "expectbool": False})
+    # distinct points that share a coordinate: the same x (P and -P, above) and the same y -- for y^2 = x^3 - 3x + b the other two roots x' of the cubic solve
+    # x'^2 + x x' + x^2 - 3 = 0; a comparison of the wrong coordinate in a "same point?" shortcut shows on these
+    inv2 = pow(2, -1, p)
+    samey = []
+    for k_ in list(range(2, 40)) + [rng.randrange(1, n) for _ in range(10)]:
+        Pk = mul(k_, G)
+        rt = sqrt_p((12 - 3 * Pk[0] * Pk[0]) % p)
+        if rt is not None and rt != 0:
+            for sgn in (1, -1):
+                P2_ = ((-Pk[0] + sgn * rt) * inv2 % p, Pk[1])
+                if on_curve(P2_):
+                    samey.append((Pk, P2_))
+        if len(samey) >= (4 if c.quick else 16):
+            break
+    for P1, P2 in samey:
+        for lam in (b"", H(rng.randrange(2, p))):
+            put({"op": "point_add", "P": xy(P1), "Q": xy(P2), "lam": lam}, ptcase("point_add", P1, P2))
+            put({"op": "point_sub", "P": xy(P1), "Q": xy(P2), "lam": lam}, ptcase("point_sub", P1, neg(P2)))
+            put({"op": "point_add_affine", "P": xy(P1), "Q": xy(P2), "lam": lam}, ptcase("point_add_affine", P1, P2))
+            put({"op": "point_sub_affine", "P": xy(P1), "Q": xy(P2), "lam": lam}, ptcase("point_sub_affine", P1, neg(P2)))
+        put({"op": "point_equ", "P": xy(P1), "Q": xy(P2), "lam": H(rng.randrange(2, p))}, {"op": "point_equ", "expectbool": False})
     # scalar multiplication by every route
     ks = [0, 1, 2, 3, n - 2, n - 1, n, n + 1, R - 1, 1 << 255, (1 << 128) - 1, 0xaaaaaaaaaaaaaaaaaaaaaaaaaaaaaaaaaaaaaaaaaaaaaaaaaaaaaaaaaaaaaaaa, 0x5555555555555555555555555555555555555555555555555555555555555555] + \
          [rng.randrange(R) for _ in range(6 if c.quick else 60)]
